@@ -54,6 +54,7 @@ def handlers : List (String × (Json → Except String Json)) := [
   ("C17.meas", Qv.Drv.C17.measJ),
   ("C16.search", Qv.Drv.C16.searchJ),
   ("C16.channel", Qv.Drv.C16.channelJ),
+  ("C16.martingale", Qv.Drv.C16.martingaleJ),
   ("C19.labels", Qv.Drv.C19.labelsJ),
   ("C19.signs", Qv.Drv.C19.signsJ),
   ("C19.combine", Qv.Drv.C19.combineJ),
